@@ -22,6 +22,13 @@ def _mk(trajs, lags, tmax, micro=None, positive=False, src='rand', bad=None):
 def cases(tier, rng, boost=1):
     yield _mk([[1, 1, 2, 1, 2, 2, 1, 2, 1, 1, 2, 2, 2, 1, 1]], [4, 1, 2], 6, src='corpus')        # unsorted lag list
     yield _mk([[0, 2, 1, 0, 2, 1, 1, 1, 1, 1, 0, 2, 2, 2, 2, 1]], [3], 15, src='corpus')            # T(3) not diagonalisable (eigenvalues 1, 1/6, 1/6)
+    # metastable two-state model (dwell time ~20 frames, second eigenvalue ~0.9) and a LONG curve: the late part must still be diag(T^k), although T^k
+    # changes by less than 1e-8 per step (k > ~150) long before it has converged to 1e-9
+    meta = []
+    for b_ in range(100):
+        meta += [b_ % 2] * (20 + (b_ * 7) % 3)
+    yield _mk([meta], [1], 400, src='corpus-long')
+    yield _mk([meta], [5, 2], 700, src='corpus-long')
     n = {'quick': 120, 'thorough': 1500, 'search': 400}[tier] * boost
     for _ in range(n):
         ns = rng.randint(2, 5)
